@@ -11,6 +11,9 @@ CONSTANTS
   MidCrash = TRUE
   Timeouts = TRUE
   MaxWriteFaults = 3
+  MaxReadFaults = 3
+  ReadKinds = {"err", "empty", "garbage"}
+  ReadFix = FALSE
 INVARIANT ContainerOK
 INVARIANT StorageShape
 POSTCONDITION TraceAccepted
